@@ -6,11 +6,14 @@ COMMON_ASSUMPTIONS = [
     "8 Elligator vectors), r*G = identity and Miller-Rabin primality of p, q, r",
     "verdicts concern the executions listed under coverage only (sampled universal quantifier)",
     "harness builds decaf377 from /repo's working tree with --cfg decaf377_verif (hooks only add accessors / a hint override)",
+    "feature configurations exercised: arkworks+r1cs, minimal; plus (thorough tier, and the quick tier of C09/C12/C13/C15/C17) "
+    "arkworks+r1cs+parallel+u32_backend with a 3-thread rayon pool and minimal+std+u32_backend",
 ]
 DISTINCT = " distinct_nontrivial counts distinct hashed case tuples per build run (summed over runs)."
 
 PROPS = {
     "C01": {
+        "config_runs_quick": [], "config_runs": [('arkx', 'C01'), ('minx', 'C01')],
         "builds": ["ark", "min"], "level": "exploration", "design_ref": "DESIGN.md §3 C01",
         "monitor_profile": [("ark", "C01"), ("min", "C01")],
         "monitor_profile_quick": [("ark", "C01"), ("min", "C01")],
@@ -27,6 +30,7 @@ PROPS = {
         "note": "trusted: BigUint model incl. encodeSpec/decodeSpec (self-tested on the sage vectors each run), coordinate hook.",
     },
     "C02": {
+        "config_runs_quick": [], "config_runs": [('arkx', 'C02'), ('minx', 'C02')],
         "builds": ["ark", "min"], "level": "exploration", "design_ref": "DESIGN.md §3 C02",
         "technique": "runtime differential monitor: every decoding entry point against the BigUint specification decoder "
                      "(verdict, error kind, element) and against each other, on structured near-misses and all slice lengths",
@@ -42,6 +46,7 @@ PROPS = {
                 "judged on its first 32 bytes and must consume exactly 32.",
     },
     "C03": {
+        "config_runs_quick": [], "config_runs": [('arkx', 'C03'), ('minx', 'C03')],
         "builds": ["ark", "min"], "level": "exploration", "design_ref": "DESIGN.md §3 C03",
         "technique": "runtime monitor comparing every encoder (16 in the arkworks build, 6 in the minimal one) with BigUint encodeSpec "
                      "on all representations of an element, plus all-pairs injectivity checks",
@@ -53,6 +58,7 @@ PROPS = {
         "note": "trusted: BigUint encodeSpec (self-tested), coordinate hook.",
     },
     "C04": {
+        "config_runs_quick": [], "config_runs": [('arkx', 'C04'), ('minx', 'C04')],
         "builds": ["ark", "min"], "level": "exploration", "design_ref": "DESIGN.md §3 C04",
         "monitor_profile": [("ark", "C04"), ("min", "C04")],
         "monitor_profile_quick": [("ark", "C04"), ("min", "C04")],
@@ -72,6 +78,7 @@ PROPS = {
                 "accessors, rustc. The structured operand-class x form matrix is exhaustive over itself; operands are sampled.",
     },
     "C05": {
+        "config_runs_quick": [], "config_runs": [('arkx', 'C05'), ('minx', 'C05')],
         "builds": ["ark", "min"], "level": "exploration", "design_ref": "DESIGN.md §3 C05",
         "monitor_profile": [("min", "C05")],
         "monitor_profile_quick": [("min", "C05")],
@@ -86,6 +93,7 @@ PROPS = {
         "note": "trusted: BigUint model (projective double-and-add validated against the affine law in the self-test).",
     },
     "C06": {
+        "config_runs_quick": [], "config_runs": [('arkx', 'C06'), ('minx', 'C06')],
         "builds": ["ark", "min"], "level": "exploration", "design_ref": "DESIGN.md §3 C06",
         "monitor_profile": [("ark", "C06")],
         "technique": "runtime validity monitor on every public constructor / sampler / deserialiser / conversion: library round trip "
@@ -101,6 +109,7 @@ PROPS = {
         "note": "trusted: BigUint model scalar multiplication for the r*P test; minimal build exposes only constants, decode and Elligator.",
     },
     "C07": {
+        "config_runs_quick": [], "config_runs": [('arkx', 'C07'), ('minx', 'C07')],
         "builds": ["ark", "min"], "level": "exploration", "design_ref": "DESIGN.md §3 C07",
         "monitor_profile": [("ark", "C07"), ("min", "C07")],
         "technique": "runtime reference-model monitor: encode_to_curve / hash_to_curve against the unoptimised elligatorSpec "
@@ -114,6 +123,7 @@ PROPS = {
                 "spec-undefined, never judged (it is unreachable).",
     },
     "C08": {
+        "config_runs_quick": [], "config_runs": [('arkx', 'C08'), ('minx', 'C08')],
         "builds": ["ark", "min"], "level": "exploration", "design_ref": "DESIGN.md §3 C08",
         "technique": "runtime coherence monitor: all pairs inside families of equal-but-differently-represented elements "
                      "(== vs encoding vs model vs Hash with DefaultHasher and a byte-recording hasher) and all identity predicates on "
@@ -128,6 +138,7 @@ PROPS = {
                 "is_identity part (it has no Hash / Zero).",
     },
     "C09": {
+        "config_runs_quick": [('arkx', 'C09'), ('minx', 'C09')], "config_runs": [('arkx', 'C09'), ('minx', 'C09')],
         "builds": ["ark", "min"], "level": "exploration", "design_ref": "DESIGN.md §3 C09",
         "technique": "runtime contract monitor with chosen 2-primary discrete logs: the workload constructs ratios g^(e/M) * u^(2^47) "
                      "so that every value of every 8-bit window of e and of -e (all table rows) occurs; Euler-criterion oracle",
@@ -147,6 +158,7 @@ PROPS = {
         "fresh_process_repeats": [("ark", "lazyinit", 12, 300)],
     },
     "C10": {
+        "config_runs_quick": [], "config_runs": [('arkx', 'C10'), ('minx', 'C10')],
         "builds": ["ark", "min"], "level": "exploration", "design_ref": "DESIGN.md §3 C10",
         "monitor_profile": [("ark", "C10"), ("min", "C10")],
         "monitor_profile_quick": [("ark", "C10"), ("min", "C10")],
@@ -162,6 +174,7 @@ PROPS = {
         "note": "trusted: num-bigint. Fq::SENTINEL and non-canonical from_montgomery_limbs inputs are outside the quantifier.",
     },
     "C11": {
+        "config_runs_quick": [], "config_runs": [('arkx', 'C11'), ('minx', 'C11')],
         "builds": ["ark", "min"], "level": "exploration", "design_ref": "DESIGN.md §3 C11",
         "technique": "runtime monitor comparing every serialiser / checked parser / reducer / conversion of the three fields with the "
                      "integer model on hostile byte strings (lengths 0..=200, p-1, p, p+1, aliases v+kp, high bits) and flag types",
@@ -178,6 +191,7 @@ PROPS = {
         "miri": [("ark", "debug", 8, 0), ("min", "debug", 8, 0)],
     },
     "C12": {
+        "config_runs_quick": [('arkx', 'transcript'), ('minx', 'transcript')], "config_runs": [('arkx', 'transcript'), ('minx', 'transcript')],
         "builds": ["ark", "min"], "level": "exploration", "design_ref": "DESIGN.md §3 C12",
         "subcommands": ["transcript"], "post": "c12_compare",
         "technique": "offline checker over recorded event logs: both builds execute the same seeded operation stream (16 shards) and "
@@ -191,6 +205,7 @@ PROPS = {
         "note": "sqrt_ratio is logged as (was_square, y^2): the sign of y is not an observable both builds define under one name.",
     },
     "C13": {
+        "config_runs_quick": [('arkx', 'C13')], "config_runs": [('arkx', 'C13')],
         "builds": ["ark"], "level": "exploration", "design_ref": "DESIGN.md §3 C13",
         "technique": "runtime monitor over fresh constraint systems: each gadget of a 46-entry catalogue is synthesised honestly on hostile "
                      "inputs and compared with its native counterpart (satisfied <=> native succeeds, output value = native output); "
@@ -206,6 +221,7 @@ PROPS = {
         "timeout": {"quick": 1500, "thorough": 14400},
     },
     "C14": {
+        "config_runs_quick": [], "config_runs": [('arkx', 'C14')],
         "builds": ["ark"], "level": "fault_enumeration", "design_ref": "DESIGN.md §3 C14, §4",
         "technique": "fault-injecting runtime monitors: (a) a cfg-guarded thread-local hook substitutes the prover's (was_square, y) hint at "
                      "every isqrt call with every value able to satisfy a case equation; (b) an unchecked constructor supplies off-curve / "
@@ -228,6 +244,7 @@ PROPS = {
         "timeout": {"quick": 1500, "thorough": 14400},
     },
     "C15": {
+        "config_runs_quick": [('arkx', 'C15')], "config_runs": [('arkx', 'C15')],
         "builds": ["ark"], "level": "exploration", "design_ref": "DESIGN.md §3 C15",
         "technique": "runtime monitor comparing (variables, constraints, matrix digest) across inputs and setup/proving mode within one run, "
                      "the instance assignment of public inputs, and Groth16 prove/verify with the repository's pinned keys",
@@ -242,6 +259,7 @@ PROPS = {
         "timeout": {"quick": 1500, "thorough": 14400},
     },
     "C16": {
+        "config_runs_quick": [], "config_runs": [('arkx', 'C16')],
         "builds": ["ark"], "level": "exploration", "design_ref": "DESIGN.md §3 C16",
         "technique": "runtime differential monitor: decaf377::Bls12_377 against the reference ark_bls12_377 engine byte for byte "
                      "(generators, k*G1, k*G2, both serialisation modes in both directions, Miller loop, pairing, Fp2/Fp6/Fp12 Frobenius "
@@ -255,6 +273,7 @@ PROPS = {
         "note": "trusted: ark-bls12-377 / ark-ec generic code.",
     },
     "C17": {
+        "config_runs_quick": [('arkx', 'constants'), ('minx', 'constants')], "config_runs": [('arkx', 'constants'), ('minx', 'constants')],
         "builds": ["ark", "min"], "level": "exploration", "design_ref": "DESIGN.md §3 C17", "exhaustive": True,
         "subcommands": ["constants"], "post": "c17_constants",
         "technique": "runtime dump of every public constant through the public API of both builds + python recomputation from the "
